@@ -190,12 +190,23 @@ class DiffXReader(object):
                 if section_id in PREAMBLE_SECTIONS:
                     # This is a preamble section.
                     #
+                    # Validate the indentation level, if provided.
+                    indent = options.get('indent')
+
+                    if (indent is not None and
+                        (not isinstance(indent, int) or indent < 0)):
+                        raise DiffXParseError(
+                            'Expected the indent option of section "%s" to '
+                            'be a non-negative integer'
+                            % section_id,
+                            linenum=linenum)
+
                     # Read the content and decode it using the current
                     # encoding (defined either on this section or in a parent).
                     section['text'] = self._read_content(
                         length=length,
                         encoding=encoding,
-                        indent=options.get('indent'),
+                        indent=indent,
                         line_endings=options.get('line_endings'))
                 elif section_id in META_SECTIONS:
                     # This is a metadata section.
@@ -501,7 +512,11 @@ class DiffXReader(object):
             # or due to some error the indentation on some line may be
             # wrong. Be careful to strip only the spaces, up to the specified
             # indentation level.
-            indent_re = re.compile(br'^ {1,%d}' % indent)
+            #
+            # No line can have more indentation than there are bytes of
+            # content, so there's no need to look for more than that (the
+            # number of repetitions a regex allows is limited).
+            indent_re = re.compile(br'^ {1,%d}' % min(indent, len(content)))
             content = b''.join(
                 indent_re.sub(b'', _line)
                 for _line in lines
